@@ -204,7 +204,7 @@ class ParallelRunner(BaseRunner):
         For templaters that require main-process state (e.g. dbt), we fall
         back to the base-class behaviour and template in the main process.
         """
-        if self.linter.templater.templates_in_worker:
+        if self.linter.templater.templates_in_worker and not self.linter.user_rules:
             for fname in self.linter.templater.sequence_files(
                 fnames, config=self.config, formatter=None
             ):
